@@ -9,6 +9,8 @@ use customasm::*;
 pub mod driver;
 
 pub mod props;
+pub mod refasm;
+pub mod refparse;
 pub mod refx;
 pub mod run;
 pub mod stats;
